@@ -55,6 +55,10 @@ OpStart(s) == IF s.tx # None THEN R(s, "err", 0)
 OpStop(s) == IF ~s.multi THEN R(s, "err", 0)
              ELSE IF s.tx = None THEN R(s, "err", 0)
              ELSE LET c == Commit(s) IN R([c.s EXCEPT !.tx = None], IF c.err THEN "err" ELSE "ok", 0)
+\* Close ends an explicit transaction as Stop does; "no transaction" is not an error for it (single mode still is)
+OpClose(s) == IF ~s.multi THEN R(s, "err", 0)
+              ELSE IF s.tx = None THEN R(s, "ok", 0)
+              ELSE LET c == Commit(s) IN R([c.s EXCEPT !.tx = None], IF c.err THEN "err" ELSE "ok", 0)
 OpAbort(s) == R(Abort_(s), "ok", 0)
 OpPut(s, k, v) ==
   LET st == Start_(s) IN
@@ -80,6 +84,7 @@ OpGet(s, k) ==
 Apply(s, op) == LET s0 == [s EXCEPT !.fl = op.fl, !.used = 0, !.log = <<>>] IN
                 CASE op.op = "start" -> OpStart(s0)
                   [] op.op = "stop"  -> OpStop(s0)
+                  [] op.op = "close" -> OpClose(s0)
                   [] op.op = "abort" -> OpAbort(s0)
                   [] op.op = "put"   -> OpPut(s0, op.k, op.v)
                   [] op.op = "get"   -> OpGet(s0, op.k)
@@ -95,7 +100,7 @@ Want(g, k) == IF g.inx /\ g.pend[k] # 0 THEN g.pend[k] ELSE g.exp[k]
 \* op = [op, k, v], res in {"ok","err","notfound","panic"}
 GhostStep(g, op, res) ==
   CASE op.op = "start" -> IF res = "ok" THEN [g EXCEPT !.inx = TRUE, !.tainted = FALSE, !.pend = [k \in Keys |-> 0]] ELSE g
-    [] op.op = "stop"  -> IF ~g.inx THEN g
+    [] op.op \in {"stop", "close"} -> IF ~g.inx THEN g
                           ELSE [g EXCEPT !.inx = FALSE, !.kf = TRUE, !.tainted = FALSE, !.pend = [k \in Keys |-> 0],
                                          !.exp = IF res = "ok" /\ ~g.tainted THEN [k \in Keys |-> IF g.pend[k] # 0 THEN g.pend[k] ELSE g.exp[k]] ELSE @]
     [] op.op = "abort" -> IF ~g.inx THEN g ELSE [g EXCEPT !.inx = FALSE, !.kf = TRUE, !.tainted = FALSE, !.pend = [k \in Keys |-> 0]]
@@ -125,5 +130,5 @@ EndedOnceP(gAfter, open) == ~gAfter.inx => open = 0
 \* explicit transaction: Start / Stop / Abort themselves behave (fault-free)
 MultiP(g, op, res, log) ==
   /\ (op.op = "start" /\ ~HasFault(log) /\ ~g.inx) => res = "ok"
-  /\ (op.op = "stop" /\ ~HasFault(log) /\ g.inx /\ ~g.tainted) => res = "ok"
+  /\ (op.op \in {"stop", "close"} /\ ~HasFault(log) /\ g.inx /\ ~g.tainted) => res = "ok"
 =============================================================================
